@@ -171,13 +171,17 @@ def curves_unit_registry(name):
     ens_load = dict(('rec_' + k, v) for k, v in rec.items())
     ens_load.update({'id': 'result.id == %d' % cid, 'aliases': ' and '.join('self.curves[%r] is result' % a for a in EC.NAMES[cid]),
                      'locked': 'writes_outside_lock(1) == 0', 'G_later': 'result.G is None'})
-    reg.add(Contract(CURVES + '.load', params={'name': nm}, raises={}, modifies=None, ensures=ens_load))
+    reg.add(Contract(CURVES + '.load', params={'name': nm}, raises={}, modifies=None, ensures=ens_load, options={'protected_fields': ['curves']}))
     ens2 = dict(ens)
     ens2.update({'decorated_G': 'result.G is not None',
                  'flags': 'result.is_edwards == %r and result.is_montgomery == %r and result.is_weierstrass == %r' % (cid in (6, 7), cid in (8, 9), cid <= 5),
                  'G_args': '%s ==> (result.G.g_x is result.Gx and result.G.g_y is %s and result.G.g_name == %r)' % (fresh, 'None' if cid in (8, 9) else 'result.Gy', name),
-                 'registered': 'self.curves[%r] is result' % name, 'locked': 'writes_outside_lock(0) == 0'})
+                 'registered': 'self.curves[%r] is result' % name, 'locked': 'writes_outside_lock(0) == 0',
+                 # the registry is only READ under the lock too: load() registers a record before __getitem__ has decorated it, so the
+                 # invariant below holds only while nobody holds the lock (seeded change C19-curves-lock-free-fast-path)
+                 'reads_locked': 'reads_outside_lock(0) == 0'})
     reg.add(Contract(CURVES + '.__getitem__', params={'name': nm}, raises={}, modifies=None, ensures=ens2, inline=[CURVES + '.load'],
+                     options={'protected_fields': ['curves']},
                      # registry invariant (what the lock protects): a registered name maps to a fully decorated record of its family
                      requires=['(%r in self.curves) ==> (self.curves[%r].id == %d and valid(self.curves[%r]))' % (name, name, cid, name)]))
     return reg
